@@ -20,6 +20,15 @@ namespace
 __thread int  tls_client = -1;
 __thread bool tls_sim    = false;
 
+// ---- calibration state (per process, deterministic: a function of the binary only)
+constexpr uint32_t kMaxGuards = 1u << 21;
+unsigned char      g_locked_bb[kMaxGuards];
+uint32_t           g_locked_count;
+bool               g_calibrating;
+const void*        g_cal_lo;
+const void*        g_cal_hi;
+__thread int       tls_cal_depth = 0;
+
 // ---- seam state
 int64_t  g_clock_ns;
 uint32_t g_rd[64];
@@ -52,6 +61,7 @@ struct G
     int      state[kMaxClients];
     const void* waiting[kMaxClients];
     int      held[kMaxClients];
+    int      held_own[kMaxClients]; // holds the container's own mutex (address inside the object)
     int      cur_op[kMaxClients];
     Owned    owned[kMaxOwned];
     int      nowned;
@@ -61,6 +71,8 @@ struct G
     uint32_t steps;
     uint32_t ndec;
     uint32_t preempt, stalls, blocked;
+    uint32_t fine_seen, fine_next, fine_fired;
+    uint32_t susp_seen, susp_next, susp_fired;
     int      prio[kMaxClients];
     int      low_prio;
     Event    ev[kMaxEvents];
@@ -152,7 +164,8 @@ bool runnable(int i)
 }
 
 // Returns the client to run next, or -2 if none is runnable.
-int choose(int c)
+// force_switch: prefer any other runnable client over the current one.
+int choose(int c, bool force_switch = false)
 {
     int r[kMaxClients], nr = 0;
     for (int i = 0; i < g.n; ++i)
@@ -223,6 +236,16 @@ int choose(int c)
                 pick = f[(d - 1) % nf];
         }
     }
+    if (force_switch && pick == c && nr > 1 && g.spec.mode != 1)
+    {
+        // the first runnable client after c, cyclically
+        for (int i = 0; i < nr; ++i)
+            if (r[i] == c)
+            {
+                pick = r[(i + 1) % nr];
+                break;
+            }
+    }
     if (k < kMaxDec)
         g.chosen[k] = pick;
     if (cur_runnable && pick != c)
@@ -239,7 +262,7 @@ bool all_idle()
 }
 
 // The calling client gives up the baton according to the next decision.
-void yield_point(int self)
+void yield_point(int self, bool force_switch = false)
 {
     if (++g.steps > g.spec.step_budget)
     {
@@ -248,7 +271,7 @@ void yield_point(int self)
         for (;;)
             wait_self(self); // never resumed
     }
-    int next = choose(self);
+    int next = choose(self, force_switch);
     if (next == self)
         return;
     if (next == -2)
@@ -266,7 +289,7 @@ void point(uint8_t kind, int op, uint16_t aux)
 {
     int self = tls_client;
     log_event(self, kind, op, aux);
-    yield_point(self);
+    yield_point(self, kind == EV_FINE && aux == 1);
 }
 } // namespace
 
@@ -298,6 +321,8 @@ void begin_run(const Spec& spec)
     g.steps     = 0;
     g.ndec      = 0;
     g.preempt = g.stalls = g.blocked = 0;
+    g.fine_seen = g.fine_next = g.fine_fired = 0;
+    g.susp_seen = g.susp_next = g.susp_fired = 0;
     g.nev                            = 0;
     g.nowned                         = 0;
     g.thash                          = 0xcbf29ce484222325ULL;
@@ -309,6 +334,7 @@ void begin_run(const Spec& spec)
         g.state[i]   = C_IDLE;
         g.waiting[i] = nullptr;
         g.held[i]    = 0;
+        g.held_own[i] = 0;
         g.cur_op[i]  = -1;
         g.prio[i]    = spec.prio[i];
     }
@@ -405,6 +431,19 @@ const int32_t* chosen(size_t* n)
 uint32_t preemptions() { return g.preempt; }
 uint32_t stalls_fired() { return g.stalls; }
 uint32_t blocked_fired() { return g.blocked; }
+uint32_t fine_fired() { return g.fine_fired; }
+uint32_t susp_seen() { return g.susp_seen; }
+uint32_t susp_fired() { return g.susp_fired; }
+uint32_t calib_locked_blocks() { return g_locked_count; }
+void     calib_begin(const void* lo, const void* hi)
+{
+    g_cal_lo      = lo;
+    g_cal_hi      = hi;
+    tls_cal_depth = 0;
+    g_calibrating = true;
+}
+void calib_end() { g_calibrating = false; }
+uint32_t fine_seen() { return g.fine_seen; }
 uint64_t trace_hash() { return g.thash; }
 int      client_of_os_tid(long os)
 {
@@ -431,7 +470,11 @@ extern "C"
     {
         int self = tls_client;
         if (self < 0 || !g.active)
+        {
+            if (g_calibrating && (const void*)m >= g_cal_lo && (const void*)m < g_cal_hi)
+                ++tls_cal_depth;
             return __real_pthread_mutex_lock(m);
+        }
         bool in_range = ((const void*)m >= g.spec.obj_lo && (const void*)m < g.spec.obj_hi);
         int  o        = owner_of(m);
         if (in_range || (o >= 0 && o != self))
@@ -446,7 +489,10 @@ extern "C"
         set_owner(m, self);
         ++g.held[self];
         if (in_range)
+        {
+            ++g.held_own[self];
             log_event(self, EV_LOCK_ACQ, g.cur_op[self], 0);
+        }
         return r;
     }
 
@@ -471,11 +517,17 @@ extern "C"
     {
         int self = tls_client;
         if (self < 0 || !g.active)
+        {
+            if (g_calibrating && (const void*)m >= g_cal_lo && (const void*)m < g_cal_hi && tls_cal_depth > 0)
+                --tls_cal_depth;
             return __real_pthread_mutex_unlock(m);
+        }
         bool in_range = ((const void*)m >= g.spec.obj_lo && (const void*)m < g.spec.obj_hi);
         clear_owner(m);
         if (g.held[self] > 0)
             --g.held[self];
+        if (in_range && g.held_own[self] > 0)
+            --g.held_own[self];
         int r = __real_pthread_mutex_unlock(m);
         if (in_range)
             point(EV_UNLOCK, g.cur_op[self], 0);
@@ -493,6 +545,71 @@ extern "C"
         if (self >= 0 && g.active && g.held[self] == 0)
             point(EV_NOW, g.cur_op[self], 0);
         return std::chrono::steady_clock::time_point(std::chrono::nanoseconds(g_clock_ns));
+    }
+
+    // -fsanitize-coverage=trace-pc-guard callbacks of the container translation units:
+    // every basic block executed by a client inside a call, while it holds no lock, is a
+    // potential schedule point (this is what lets code that forgot its lock interleave).
+    void __sanitizer_cov_trace_pc_guard_init(uint32_t* start, uint32_t* stop)
+    {
+        static uint32_t n;
+        if (start == stop || *start)
+            return;
+        for (uint32_t* x = start; x < stop; ++x)
+            *x = ++n;
+    }
+    void __sanitizer_cov_trace_pc_guard(uint32_t* guard)
+    {
+        uint32_t id = *guard;
+        if (g_calibrating)
+        {
+            // bit 0: seen while the container's lock was held, bit 1: seen without it.
+            // Only blocks seen under the lock and never without it count as "locked code".
+            if (id < kMaxGuards)
+            {
+                unsigned char bit = tls_cal_depth > 0 ? 1 : 2;
+                if (!(g_locked_bb[id] & bit))
+                {
+                    g_locked_bb[id] |= bit;
+                    if (g_locked_bb[id] == 1)
+                        ++g_locked_count;
+                    else if (g_locked_bb[id] == 3)
+                        --g_locked_count;
+                }
+            }
+            return;
+        }
+        int self = tls_client;
+        if (self < 0 || !g.active)
+            return;
+        if (g.cur_op[self] < 0 || g.state[self] != C_READY)
+            return;
+        // (1) code that calibration only ever saw under the container's lock, now running without it
+        if (g.held_own[self] == 0 && id < kMaxGuards && g_locked_bb[id] == 1)
+        {
+            uint32_t n = g.susp_seen++;
+            while (g.susp_next < g.spec.nsusp && g.spec.susp[g.susp_next] < n)
+                ++g.susp_next;
+            if (g.susp_next < g.spec.nsusp && g.spec.susp[g.susp_next] == n && g.held[self] == 0)
+            {
+                ++g.susp_next;
+                ++g.susp_fired;
+                point(EV_FINE, g.cur_op[self], 1);
+                return;
+            }
+        }
+        // (2) any basic block outside every lock, at the counts the plan asks for
+        if (g.spec.nfine == 0 || g.held[self] != 0)
+            return;
+        uint32_t n = g.fine_seen++;
+        while (g.fine_next < g.spec.nfine && g.spec.fine[g.fine_next] < n)
+            ++g.fine_next;
+        if (g.fine_next < g.spec.nfine && g.spec.fine[g.fine_next] == n)
+        {
+            ++g.fine_next;
+            ++g.fine_fired;
+            point(EV_FINE, g.cur_op[self], 0);
+        }
     }
 
     // unsigned int std::random_device::_M_getval()
